@@ -1046,6 +1046,34 @@ theorem SegRel.parked_iff {s s' : Sys σ Op} {t : Nat} {o : SegOut σ} {th0 th' 
     (h : s'.ths[t]? = some th') (c : Nat) : o.fin = .park c ↔ th'.st = .parked c := by
   rw [r.self_eq h]; exact finTh_parked_iff.symm
 
+/-- if the running thread is parked after the segment, the segment ended in that park and the
+    thread is still inside the same operation -/
+theorem SegRel.self_parked {s s' : Sys σ Op} {t : Nat} {o : SegOut σ} {th0 th' : Th Op} (r : SegRel s s' t o th0)
+    (h : s'.ths[t]? = some th') {c : Nat} (hp : th'.st = .parked c) :
+    o.fin = .park c ∧ th'.ops = th0.ops ∧ th'.pc = th0.pc ∧ th'.cancelled = th0.cancelled := by
+  have hfin := (r.parked_iff h c).2 hp
+  refine ⟨hfin, ?_⟩
+  rw [r.self_eq h, hfin]
+  exact ⟨rfl, rfl, rfl⟩
+
+/-- identify the segment of a step from the pre-state -/
+theorem seg_of_step {sub : Subject σ Op} {s s' : Sys σ Op} {a : Act} {obs : String} {t : Nat} {th : Th Op} {op : Op}
+    (hwf : s.WF) (hen : a ∈ enabled s true) (hs : step sub s a = some (s', obs))
+    (ha : a = .start t ∨ a = .resume t) (hth : s.ths[t]? = some th) (hop : th.ops[th.pc]? = some op) :
+    ∃ th0 o, IsSeg sub s t a th0 op o ∧ SegRel s s' t o th0 ∧ th0.pc = th.pc ∧
+      (a = .resume t → th0 = th) ∧ (a = .start t → th0.cancelled = false) := by
+  obtain ⟨th0, op', o, hseg, r⟩ := step_seg hwf hen hs ha
+  obtain ⟨th1, hth1, hops, hpc, _, _, hop', _, hact⟩ := hseg.basic
+  rw [hth] at hth1; cases hth1
+  rw [hops, hpc, hop] at hop'; cases hop'
+  refine ⟨th0, o, hseg, r, hpc, ?_, ?_⟩
+  · intro hr; rcases hact with h1 | ⟨_, h1⟩
+    · rw [hr] at h1; cases h1
+    · exact h1
+  · intro hst; subst hst
+    cases hseg with
+    | start _ _ _ => rfl
+
 theorem step_cancel_rel {sub : Subject σ Op} {s s' : Sys σ Op} {t : Nat} {obs : String} (hwf : s.WF)
     (hen : Act.cancel t ∈ enabled s true) (h : step sub s (.cancel t) = some (s', obs)) :
     ∃ th, s.ths[t]? = some th ∧ (th.st = .woken ∨ ∃ c, th.st = .parked c) ∧ th.cancelled = false ∧
@@ -1574,5 +1602,56 @@ theorem parkedOn_of_cancel_fire {sub : Subject σ Op} {s s' : Sys σ Op} {a : Ac
         split at hp
         · cases hp
         · exact ⟨u, th1, h1, hp⟩
+
+/-- what `cancel` / `fire` do to the threads, coarsely: the subject state, programs and program
+    counters are untouched; a thread's state is unchanged or went from parked to woken -/
+theorem cancel_fire_thread {sub : Subject σ Op} {s s' : Sys σ Op} {a : Act} {obs : String} {t : Nat}
+    (hwf : s.WF) (hen : a ∈ enabled s true) (hs : step sub s a = some (s', obs)) (ha : a = .cancel t ∨ a = .fire t) :
+    s'.subj = s.subj ∧ ∀ (u : Nat),
+      (∀ th, s.ths[u]? = some th → ∃ th', s'.ths[u]? = some th' ∧ th'.ops = th.ops ∧ th'.pc = th.pc ∧
+        (th'.st = th.st ∨ (th'.st = .woken ∧ ∃ c, th.st = .parked c))) ∧
+      (s.ths[u]? = none → s'.ths[u]? = none) := by
+  rcases ha with rfl | rfl
+  · obtain ⟨tht, htht, _, _, _, hsubj, hself, hoth⟩ := step_cancel_rel hwf hen hs
+    refine ⟨hsubj, fun u => ⟨?_, ?_⟩⟩
+    · intro th hth
+      by_cases hut : u = t
+      · subst hut; rw [hth] at htht; cases htht
+        exact ⟨_, hself, rfl, rfl, Or.inl rfl⟩
+      · exact ⟨th, by rw [hoth u hut]; exact hth, rfl, rfl, Or.inl rfl⟩
+    · intro hn
+      by_cases hut : u = t
+      · subst hut; rw [hn] at htht; cases htht
+      · rw [hoth u hut]; exact hn
+  · obtain ⟨tht, h0, htht, hf, _, hsubj, hself, hoth⟩ := step_fire_rel hwf hs
+    have hb : ∀ th : Th Op, (th.bwake h0.cond).st = th.st ∨ ((th.bwake h0.cond).st = .woken ∧ ∃ c, th.st = .parked c) := by
+      intro th; rw [Th.bwake_st]; split
+      · exact Or.inr ⟨rfl, _, by assumption⟩
+      · exact Or.inl rfl
+    refine ⟨hsubj, fun u => ⟨?_, ?_⟩⟩
+    · intro th hth
+      by_cases hut : u = t
+      · subst hut; rw [hth] at htht; cases htht
+        exact ⟨_, hself, by simp, by simp, hb _⟩
+      · exact ⟨th.bwake h0.cond, by rw [hoth u hut, hth]; rfl, by simp, by simp, hb th⟩
+    · intro hn
+      by_cases hut : u = t
+      · subst hut; rw [hn] at htht; cases htht
+      · rw [hoth u hut, hn]; rfl
+
+/-- a thread parked after `cancel` / `fire` was parked before, inside the same operation -/
+theorem parked_of_cancel_fire {sub : Subject σ Op} {s s' : Sys σ Op} {a : Act} {obs : String} {t : Nat}
+    (hwf : s.WF) (hen : a ∈ enabled s true) (hs : step sub s a = some (s', obs)) (ha : a = .cancel t ∨ a = .fire t)
+    {u : Nat} {th' : Th Op} {c : Nat} (hth' : s'.ths[u]? = some th') (hp : th'.st = .parked c) :
+    ∃ th, s.ths[u]? = some th ∧ th.st = .parked c ∧ th.ops = th'.ops ∧ th.pc = th'.pc := by
+  obtain ⟨_, h⟩ := cancel_fire_thread hwf hen hs ha
+  cases hth : s.ths[u]? with
+  | none => rw [(h u).2 hth] at hth'; cases hth'
+  | some th =>
+    obtain ⟨th'', hth'', hops, hpc, hst⟩ := (h u).1 th hth
+    rw [hth'] at hth''; cases hth''
+    rcases hst with hst | ⟨hst, _⟩
+    · exact ⟨th, rfl, by rw [← hst]; exact hp, hops.symm, hpc.symm⟩
+    · rw [hst] at hp; cases hp
 
 end FunModel.Conc
